@@ -115,6 +115,7 @@ class C20Session(Session):
         # a markers object (family 'markers'); it is not part of the pool: its model lives at index -1
         self.markers = MagpyMarkers((0, 0, 0))
         self.markers_S = {k: v for k, v in flat(type(self.markers.style)()).items() if not sm.is_alias(k)}
+        self.traces = {}
 
     def close(self):
         env.reset_defaults()
@@ -139,9 +140,32 @@ class C20Session(Session):
                 "display": {k: sm.norm(v) for k, v in self._settings().display.as_dict(flatten=True, separator="_").items()
                             if not k.startswith("style_")}}
 
+    def _trace_enc(self, o):
+        """canonical encoding of the user-defined model3d traces of an object (object-level style data)"""
+        from ..snapshot import enc
+
+        try:
+            return enc([vars(t) for t in o.style.model3d.data], self.world.index)
+        except HarnessError:
+            return "unencodable"
+
+    def _check_traces(self, op):
+        """model3d traces are object-level: a step may change the traces of the object it addresses (and a
+        copy starts with equal traces), nobody else's"""
+        addressed = op.get("o") if op["op"] in ("add_trace", "trace_edit") else None
+        addressed = addressed % len(self.world.objs) if isinstance(addressed, int) else None
+        for i, o in enumerate(self.world.objs):
+            now = self._trace_enc(o)
+            if i in self.traces and i != addressed and now != self.traces[i]:
+                raise Violation("traces_of_other_object_changed",
+                                f"the model3d traces of object {i} ({type(o).__name__}) changed although the step "
+                                f"{op['op']} addressed object {addressed}", op=op["op"], leaf="model3d_data")
+            self.traces[i] = now
+
     def _check_all(self, op, what="after"):
         M = self.model
         sig = {"op": op["op"], "notation": op.get("notation")}
+        self._check_traces(op)
         # 1. own styles
         for i, o in enumerate(self.world.objs):
             own = own_flat(o, i)
@@ -551,6 +575,29 @@ class C20Session(Session):
             M.reset_defaults()
             if dirty:
                 self.probe("reset_after_defaults_changed")
+        elif k == "add_trace":
+            i = op["o"] % len(w.objs)
+            out = self._guard(lambda: w.objs[i].style.model3d.add_trace(
+                backend="generic", constructor="Scatter3d",
+                kwargs={"x": [0, op["x"]], "y": [0, 1], "z": [0, 0], "mode": "lines"}))
+        elif k == "trace_edit":
+            i = op["o"] % len(w.objs)
+            data = w.objs[i].style.model3d.data
+            if data:
+                def edit():
+                    t = data[op.get("which", 0) % len(data)]
+                    how = op.get("how", "show")
+                    if how == "show":
+                        t.show = not t.show
+                    elif how == "scale":
+                        t.scale = op.get("value", 2)
+                    elif how == "kwargs":
+                        t.kwargs["x"][0] = op.get("value", 2)
+                        t.kwargs["name"] = "edited"
+                    else:
+                        t.update(scale=op.get("value", 3))
+                out = self._guard(edit)
+                self.probe("trace_edited_in_place")
         elif k == "style_reset":
             import magpylib as magpy
 
@@ -745,6 +792,7 @@ class Sim:
             "p_show": (0.05 if thorough else 0.02) if rng.random() < 0.7 else (0.15 if thorough else 0.06),
             "p_alias": rng.choice([0.0, 0.1, 0.3]),
             "p_colorform": rng.choice([0.0, 0.3, 0.6]),
+            "p_trace": rng.choice([0.0, 0.1, 0.2]),
         }
 
     def new_world_spec(self, rng, cfg):
@@ -848,6 +896,16 @@ class Sim:
         written_obj = [k for s in M.S for k, v in s.items() if v is not None]
         if rng.random() < cfg["p_show"]:
             kind = "show"
+        if rng.random() < cfg.get("p_trace", 0.0):
+            with_tr = [i for i, o in enumerate(w.objs) if getattr(o, "_style", None) is not None
+                       and o._style.model3d.data]
+            if with_tr and rng.random() < 0.6:
+                op = {"op": "trace_edit", "o": rng.choice(with_tr), "which": rng.randrange(3),
+                      "how": rng.choice(["show", "scale", "kwargs", "update"]), "value": rng.randint(2, 9)}
+            else:
+                op = {"op": "add_trace", "o": rng.randrange(n), "x": rng.randint(1, 5)}
+            op["probe_kw"] = self._probe_kw(rng, cfg, sess)
+            return op
         meshes = [i for i, o in enumerate(w.objs) if type(o).__name__ == "TriangularMesh"]
         if meshes and n <= 10 and rng.random() < 0.08:
             op = {"op": "to_tricoll", "o": rng.choice(meshes)}
